@@ -157,6 +157,13 @@ impl Run {
     /// Child: returns None — do the share of work selected by `mine()` and call `finish()` as usual.
     /// Threads inside one process contend on process-wide kernel locks (mmap/mlock); processes do not.
     pub fn fan_out(&self, n: usize) -> Option<Vec<Map<String, Value>>> {
+        self.fan_out_resumable(n, &|_, _| None)
+    }
+
+    /// Like `fan_out`, but a worker that dies without a result (abort on allocation failure, stack overflow) is
+    /// handed to `on_dead(shard, progress_file)`: it may record a violation from the worker's progress slot and
+    /// return extra environment for a replacement worker that resumes behind the fatal input. `None` = machinery error.
+    pub fn fan_out_resumable(&self, n: usize, on_dead: &dyn Fn(usize, &str) -> Option<Vec<(String, String)>>) -> Option<Vec<Map<String, Value>>> {
         if self.is_child() {
             return None;
         }
@@ -164,59 +171,84 @@ impl Run {
         let args: Vec<String> = std::env::args().skip(1).collect();
         let dir = format!("/dev/shm/vh-shards-{}-{}", self.property, std::process::id());
         let _ = std::fs::create_dir_all(&dir);
+        let spawn = |i: usize, extra: &[(String, String)]| {
+            let out = format!("{dir}/{i}.json");
+            let _ = std::fs::remove_file(&out);
+            let mut c = std::process::Command::new(&exe);
+            c.args(&args).env("VH_SHARD", format!("{i}/{n}")).env("VH_SHARD_OUT", &out).env("VERIF_JOBS", "1").stdout(std::process::Stdio::null());
+            for (k, v) in extra {
+                c.env(k, v);
+            }
+            (c.spawn().unwrap_or_else(|e| machinery_exit(&format!("spawn worker: {e}"))), out)
+        };
         let mut kids = Vec::new();
         for i in 0..n {
-            let out = format!("{dir}/{i}.json");
-            let child = std::process::Command::new(&exe)
-                .args(&args)
-                .env("VH_SHARD", format!("{i}/{n}"))
-                .env("VH_SHARD_OUT", &out)
-                .env("VERIF_JOBS", "1")
-                .stdout(std::process::Stdio::null())
-                .spawn()
-                .unwrap_or_else(|e| machinery_exit(&format!("spawn worker: {e}")));
-            kids.push((child, out));
+            kids.push(spawn(i, &[]));
         }
         let mut covs = Vec::new();
-        for (i, (mut child, out)) in kids.into_iter().enumerate() {
-            let st = child.wait().unwrap_or_else(|e| machinery_exit(&format!("wait worker: {e}")));
-            let txt = std::fs::read_to_string(&out).unwrap_or_default();
-            let v: Value = match serde_json::from_str(&txt) {
-                Ok(v) => v,
-                Err(_) => {
-                    self.machinery_error(format!("worker {i}/{n} produced no result (exit {st})"));
-                    continue;
-                }
-            };
-            if let Some(arr) = v["sigs"].as_array() {
-                let mut sigs = self.sigs.lock().unwrap();
-                for s in arr {
-                    let key = s["key"].as_str().unwrap_or("").to_string();
-                    let count = s["count"].as_u64().unwrap_or(1);
-                    match sigs.get_mut(&key) {
-                        Some(e) => e.count += count,
-                        None => {
-                            let features: BTreeMap<String, String> = serde_json::from_value(s["features"].clone()).unwrap_or_default();
-                            sigs.insert(key, Sig { first: Violation { clause: s["clause"].as_str().unwrap_or("").into(), features, witness: s["witness"].clone(), what: s["what"].as_str().unwrap_or("").into() }, count });
+        for (i, (mut child, mut out)) in kids.into_iter().enumerate() {
+            let mut restarts = 0;
+            loop {
+                let st = child.wait().unwrap_or_else(|e| machinery_exit(&format!("wait worker: {e}")));
+                let txt = std::fs::read_to_string(&out).unwrap_or_default();
+                let v: Value = match serde_json::from_str(&txt) {
+                    Ok(v) => v,
+                    Err(_) => {
+                        restarts += 1;
+                        match (restarts <= 64).then(|| on_dead(i, &format!("{out}.pos"))).flatten() {
+                            Some(extra) => {
+                                let (c2, o2) = spawn(i, &extra);
+                                child = c2;
+                                out = o2;
+                                continue;
+                            }
+                            None => {
+                                self.machinery_error(format!("worker {i}/{n} produced no result (exit {st})"));
+                                break;
+                            }
                         }
                     }
-                }
+                };
+                self.merge_worker(i, &v);
+                covs.push(v["coverage"].as_object().cloned().unwrap_or_default());
+                break;
             }
-            if let Some(m) = v["infos"].as_object() {
-                for (k, n) in m {
-                    self.info_n(k, n.as_u64().unwrap_or(0));
-                }
-            }
-            for c in v["caps"].as_array().cloned().unwrap_or_default() {
-                self.cap_hit(c.as_str().unwrap_or("").to_string());
-            }
-            for c in v["merrs"].as_array().cloned().unwrap_or_default() {
-                self.machinery_error(format!("worker {i}: {}", c.as_str().unwrap_or("")));
-            }
-            covs.push(v["coverage"].as_object().cloned().unwrap_or_default());
         }
         let _ = std::fs::remove_dir_all(&dir);
         Some(covs)
+    }
+
+    fn merge_worker(&self, i: usize, v: &Value) {
+        if let Some(arr) = v["sigs"].as_array() {
+            let mut sigs = self.sigs.lock().unwrap();
+            for s in arr {
+                let key = s["key"].as_str().unwrap_or("").to_string();
+                let count = s["count"].as_u64().unwrap_or(1);
+                match sigs.get_mut(&key) {
+                    Some(e) => e.count += count,
+                    None => {
+                        let features: BTreeMap<String, String> = serde_json::from_value(s["features"].clone()).unwrap_or_default();
+                        sigs.insert(key, Sig { first: Violation { clause: s["clause"].as_str().unwrap_or("").into(), features, witness: s["witness"].clone(), what: s["what"].as_str().unwrap_or("").into() }, count });
+                    }
+                }
+            }
+        }
+        if let Some(m) = v["infos"].as_object() {
+            for (k, n) in m {
+                self.info_n(k, n.as_u64().unwrap_or(0));
+            }
+        }
+        for c in v["caps"].as_array().cloned().unwrap_or_default() {
+            self.cap_hit(c.as_str().unwrap_or("").to_string());
+        }
+        for c in v["merrs"].as_array().cloned().unwrap_or_default() {
+            self.machinery_error(format!("worker {i}: {}", c.as_str().unwrap_or("")));
+        }
+    }
+
+    /// Path of this worker's progress slot (next to its result file).
+    pub fn progress_path(&self) -> Option<String> {
+        self.shard_out.as_ref().map(|o| format!("{o}.pos"))
     }
 
     pub fn replay_file(&self) -> Option<&str> {
@@ -698,6 +730,44 @@ pub fn alloc_mark() -> isize {
 /// Peak live bytes above `mark` since `alloc_mark()` on this thread.
 pub fn alloc_peak_since(mark: isize) -> isize {
     PEAK.with(|p| p.get()) - mark
+}
+
+// ---------------------------------------------------------------------------------------------
+// Progress slot: a worker records which input it is about to hand to the subject in a memory-mapped file, so that the
+// parent can name the input when the worker process is killed by it (allocation failure aborts, it does not unwind).
+
+pub struct ProgressSlot {
+    ptr: *mut u32,
+}
+unsafe impl Send for ProgressSlot {}
+unsafe impl Sync for ProgressSlot {}
+impl ProgressSlot {
+    pub fn create(path: &str) -> Option<ProgressSlot> {
+        use std::os::unix::io::AsRawFd;
+        let f = std::fs::OpenOptions::new().create(true).read(true).write(true).truncate(true).open(path).ok()?;
+        f.set_len(16).ok()?;
+        let p = unsafe { libc::mmap(std::ptr::null_mut(), 16, libc::PROT_READ | libc::PROT_WRITE, libc::MAP_SHARED, f.as_raw_fd(), 0) };
+        if p == libc::MAP_FAILED {
+            return None;
+        }
+        Some(ProgressSlot { ptr: p as *mut u32 })
+    }
+    pub fn set(&self, a: u32, b: u32, c: u32) {
+        unsafe {
+            std::ptr::write_volatile(self.ptr, a);
+            std::ptr::write_volatile(self.ptr.add(1), b);
+            std::ptr::write_volatile(self.ptr.add(2), c);
+            std::ptr::write_volatile(self.ptr.add(3), 1);
+        }
+    }
+    pub fn read(path: &str) -> Option<(u32, u32, u32)> {
+        let b = std::fs::read(path).ok()?;
+        if b.len() < 16 || u32::from_le_bytes([b[12], b[13], b[14], b[15]]) != 1 {
+            return None;
+        }
+        let g = |i: usize| u32::from_le_bytes([b[i], b[i + 1], b[i + 2], b[i + 3]]);
+        Some((g(0), g(4), g(8)))
+    }
 }
 
 // ---------------------------------------------------------------------------------------------
